@@ -18,9 +18,9 @@ def run(run):
         raise Infra("Hex specification violates %s" % res["violated"])
     account_mc(run, res)
     exe = build_driver(run, "hex_drv", "hex_drv.c", ["librfn/hex.c", "librfn/util.c"])
-    tr = exec_script(run, exe, [], "Dumps 40\nStrings %d\nRandom %d %d\nTwo %d %d\nLong\nManyLines 1000000\n%s" % (
+    tr = exec_script(run, exe, [], "Dumps 40\nStrings %d\nRandom %d %d\nTwo %d %d\nLong\nManyLines 1000000\nHugeText 0\n%s" % (
                          ml, run.seed, 20000 if run.thorough() else 3000, run.seed, 2000 if run.thorough() else 300,
-                         "BigDumps 0 60000 1\nBigDumps 60001 70000 13\n" if run.thorough() else "BigDumps 41 16500 1\nBigDumps 16501 70000 997\nBigDumps 32700 32800 1\nBigDumps 65500 65600 1\n"),
+                         "HugeText 1\nBigDumps 0 60000 1\nBigDumps 60001 70000 13\n" if run.thorough() else "BigDumps 41 16500 1\nBigDumps 16501 70000 997\nBigDumps 32700 32800 1\nBigDumps 65500 65600 1\n"),
                      run.path("hex.ndjson"), "cases", timeout=1800 if run.thorough() else 600)
     n = count_lines(tr)
     check_trace(run, "cases", "TraceHex", "TraceHex.cfg", tr, timeout=1500)
